@@ -119,6 +119,7 @@ pub struct CallRec {
 }
 
 pub fn run_history<K: Kit>(kit: &K, h: &History, keep_events: bool, budget: u64) -> Result<(Drv<K>, Vec<CallRec>), String> {
+    crate::watch::set_case(h.to_json());
     oxmpl::verif::arm(0);
     let build_secs = (h.prm_samples as f64 - 0.5) * 1e-3;
     let mut d = Drv::new(kit, &h.params, build_secs).map_err(|r| format!("constructor: {}", r.short()))?;
